@@ -236,7 +236,7 @@ func (r *transport) RoundTrip(req *http.Request) (*http.Response, error) {
 		return r.handleCacheMiss(req, urlKey, nil, -1)
 	}
 
-	refIndex, found := r.vm.VaryHeadersMatch(refs, req.Header)
+	refIndex, found := r.selectVariant(refs, req.Header)
 	if !found {
 		return r.handleCacheMiss(req, urlKey, refs, -1)
 	}
@@ -256,6 +256,25 @@ func (r *transport) RoundTrip(req *http.Request) (*http.Response, error) {
 	}
 
 	return r.handleCacheHit(req, entry, urlKey, refs, refIndex)
+}
+
+// selectVariant returns the index of the stored response to use for the
+// request: when more than one matches (the origin changed or dropped its Vary
+// over time), the most recently received one (RFC 9111 §4.1).
+func (r *transport) selectVariant(refs internal.ResponseRefs, header http.Header) (int, bool) {
+	best, found := -1, false
+	for from := 0; from < len(refs); {
+		i, ok := r.vm.VaryHeadersMatch(refs[from:], header)
+		if !ok {
+			break
+		}
+		i += from
+		if !found || refs[i].ReceivedAt.After(refs[best].ReceivedAt) {
+			best, found = i, true
+		}
+		from = i + 1
+	}
+	return best, found
 }
 
 func (r *transport) handleUnrecognizedMethod(
